@@ -1054,6 +1054,9 @@ def ctapi_gen(tier, shard, nshards):
             for listenable in (False, True):
                 for hops in (1, 2):
                     cases.append({"what": "oddprefix", "prefix": pv, "style": style, "listenable": listenable, "hops": hops})
+                # two hops whose MIDDLE object is a temporary (a property builds a fresh one at every access): the core holds
+                # the only reference to it while it resolves the second hop's name from that object's class
+                cases.append({"what": "oddprefix", "prefix": pv, "style": style, "listenable": listenable, "hops": 2, "temp": True})
     for c in cases:
         if i % nshards == shard:
             yield c
@@ -1220,7 +1223,10 @@ def ctapi_run(case, ctx):
                 ns["__prefix__"] = pv
             A1 = type("OA", (HasTraits,), ns)
             top = A1
-            if case["hops"] == 2:
+            if case["hops"] == 2 and case.get("temp"):
+                top = type("OB", (HasTraits,), {"a": T.Property(fget=lambda self: A1()),
+                                                "foo": DelegatesTo("a", listenable=False)})
+            elif case["hops"] == 2:
                 top = type("OB", (HasTraits,), {"a": Instance(A1, ()), "foo": DelegatesTo("a", listenable=case["listenable"])})
         except SystemError as e:
             ctx.fail("systemerror/ctrait-api", "%r raised %r" % (case, e))
